@@ -41,14 +41,6 @@ Qed.
 Lemma comparators_missing : forall c q, eval_cmp c None q = true <-> c = CNe.
 Proof. intros c q. destruct c; cbn [eval_cmp]; split; intros H; try discriminate; reflexivity. Qed.
 
-(* the text of the six comparators *)
-Definition cmp_chars (c : cmp) : list ascii :=
-  match c with
-  | CEq => ["="; "="] | CNe => ["!"; "="] | CLe => ["<"; "="] | CGe => [">"; "="]
-  | CLt => ["<"] | CGt => [">"]
-  end%char.
-
-Definition no_opchar (l : list ascii) : Prop := Forall (fun c => is_opchar c = false) l.
 
 Lemma span_name_app : forall name rest c,
   no_opchar name -> is_opchar c = true -> span_name (name ++ c :: rest) = (name, c :: rest).
@@ -62,9 +54,6 @@ Qed.
 Lemma chars_unchars : forall l, chars (unchars l) = l.
 Proof. induction l as [|c t IH]; cbn [chars unchars]; [reflexivity|rewrite IH; reflexivity]. Qed.
 
-(* a literal text: something float() accepts never begins with one of = < > ! *)
-Definition starts_clean (l : list ascii) : Prop :=
-  match l with [] => False | c :: _ => is_opchar c = false end.
 
 Lemma lstrip_clean : forall l, starts_clean l -> lstrip_ops l = l.
 Proof. intros [|c t] H; [destruct H|]. cbn [lstrip_ops]. cbn in H. rewrite H. reflexivity. Qed.
@@ -103,8 +92,6 @@ Proof.
     rewrite Pos.mul_1_r. rewrite Z2Pos.id by exact Hp. ring.
 Qed.
 
-Definition cond_view (o : option cond) : option (string * cmp * Q) :=
-  option_map (fun c => (c_name c, c_cmp c, Qred (c_lit c))) o.
 
 (* negative, decimal, exponent, signed-exponent, bare-point and capital-E literals *)
 Lemma parse_cond_examples :
@@ -118,3 +105,1306 @@ Lemma parse_cond_examples :
   cond_view (parse_cond "b>3.") = Some ("b"%string, CGt, 3 # 1)%Q /\
   parse_cond "b=3" = None /\ parse_cond "b>" = None /\ parse_cond "b>1e" = None /\ parse_cond "b>1.2.3" = None.
 Proof. vm_compute. repeat split; reflexivity. Qed.
+
+(* ====================================================================================== *)
+(* B. the container's cycle vector: slices = wrap-delimited segments = label lookup         *)
+(* ====================================================================================== *)
+
+Lemma run_starts_repeat : forall x m rest i,
+  run_starts x (repeat x m ++ rest) i = run_starts x rest (i + m).
+Proof.
+  induction m as [|m IH]; intros rest i.
+  - cbn [repeat app]. rewrite Nat.add_0_r. reflexivity.
+  - cbn [repeat app run_starts]. rewrite Z.eqb_refl. cbn [negb]. rewrite andb_false_r. cbn [app].
+    rewrite IH. f_equal. lia.
+Qed.
+
+Lemma run_starts_block : forall prev x n rest i, -1 < x -> x <> prev ->
+  run_starts prev (repeat x (S n) ++ rest) i = i :: run_starts x rest (i + S n).
+Proof.
+  intros prev x n rest i Hx Hp. cbn [repeat app run_starts].
+  destruct (Z.ltb_spec (-1) x) as [_|L]; [|lia].
+  destruct (Z.eqb_spec x prev) as [E|_]; [contradiction|]. cbn [negb andb app].
+  rewrite run_starts_repeat. f_equal. f_equal. lia.
+Qed.
+
+Definition head_differs (rest : list Z) (x : Z) : Prop :=
+  match rest with [] => True | y :: _ => y <> x end.
+
+Lemma run_stops_block : forall x n rest i, -1 < x -> head_differs rest x ->
+  run_stops (repeat x (S n) ++ rest) i = (i + S n)%nat :: run_stops rest (i + S n).
+Proof.
+  intros x n. induction n as [|n IH]; intros rest i Hx Hr.
+  - cbn [repeat app run_stops].
+    destruct (Z.ltb_spec (-1) x) as [_|L]; [|lia].
+    destruct rest as [|y t].
+    + destruct (Z.eqb_spec x (-1)) as [E|_]; [lia|]. cbn [negb andb app].
+      replace (i + 1)%nat with (S i) by lia. reflexivity.
+    + cbn in Hr. destruct (Z.eqb_spec x y) as [E|_]; [congruence|]. cbn [negb andb app].
+      replace (i + 1)%nat with (S i) by lia. reflexivity.
+  - change (repeat x (S (S n)) ++ rest) with (x :: (repeat x (S n) ++ rest)).
+    cbn [run_stops]. change (repeat x (S n) ++ rest) with (x :: (repeat x n ++ rest)) at 1.
+    cbv iota. rewrite Z.eqb_refl. cbn [negb]. rewrite andb_false_r. cbn [app].
+    rewrite (IH rest (S i) Hx Hr). f_equal; [lia|f_equal; lia].
+Qed.
+
+Lemma slices_expand : forall t a k prev,
+  StronglySorted lt (a :: t) -> prev < Z.of_nat k ->
+  run_starts prev (expand (adj (a :: t)) (map Z.of_nat (seq k (length t)))) a = map fst (adj (a :: t)) /\
+  run_stops (expand (adj (a :: t)) (map Z.of_nat (seq k (length t)))) a = map snd (adj (a :: t)) /\
+  head_differs (expand (adj (a :: t)) (map Z.of_nat (seq k (length t)))) prev.
+Proof.
+  induction t as [|b t IH]; intros a k prev Hs Hp.
+  - cbn. repeat split.
+  - inversion Hs as [|? ? Hs' Hf]; subst. inversion Hf as [|? ? Hab _]; subst.
+    change (adj (a :: b :: t)) with ((a, b) :: adj (b :: t)).
+    cbn [length seq map expand fst snd].
+    destruct (IH b (S k) (Z.of_nat k) Hs' ltac:(lia)) as [I1 [I2 I3]].
+    assert (E : (b - a = S (b - a - 1))%nat) by lia. rewrite E.
+    rewrite run_starts_block by lia.
+    rewrite run_stops_block by (try lia; exact I3).
+    replace (a + S (b - a - 1))%nat with b by lia.
+    rewrite I1, I2. repeat split. cbn [repeat app head_differs]. lia.
+Qed.
+
+Lemma combine_fst_snd : forall A B (l : list (A * B)), combine (map fst l) (map snd l) = l.
+Proof. induction l as [|[x y] t IH]; cbn [map combine fst snd]; [reflexivity|rewrite IH; reflexivity]. Qed.
+
+Lemma all_labels_seq : forall P ph goods,
+  all_some (map (seg_accept P false None ph) (adj (boundaries P ph))) = Some goods ->
+  get_subset_vector goods = map Z.of_nat (seq 0 (length (adj (boundaries P ph)))).
+Proof.
+  intros P ph goods Hg. apply nth_error_ext_eq. intros k.
+  destruct (lt_dec k (length (adj (boundaries P ph)))) as [L|L].
+  - rewrite (labelsA_nth _ _ _ _ k Hg L). rewrite nth_error_map, nth_error_seq by exact L. reflexivity.
+  - assert (E1 : nth_error (get_subset_vector goods) k = None).
+    { apply nth_error_None. rewrite sv_length, (goods_length _ _ _ _ _ _ Hg). lia. }
+    rewrite E1. symmetry. apply nth_error_None. rewrite map_length, seq_length. lia.
+Qed.
+
+(* the structure of the vector Cycles.__init__ stores *)
+Lemma container_cases : forall P ph cv, container P ph cv ->
+  (wrap_hits P ph = [] /\ cv = repeat (-1) (length ph) /\ segs_of P ph = []) \/
+  (wrap_hits P ph <> [] /\ segs_of P ph = adj (boundaries P ph) /\
+   exists goods, all_some (map (seg_accept P false None ph) (adj (boundaries P ph))) = Some goods /\
+     cv = expand (adj (boundaries P ph)) (get_subset_vector goods)).
+Proof.
+  intros P ph cv H. apply gcv_struct in H. unfold segs_of.
+  destruct H as [[E ->]|[Hne [goods [Hg ->]]]].
+  - left. rewrite E. repeat split.
+  - right. split; [exact Hne|]. split.
+    + destruct (wrap_hits P ph); [congruence|reflexivity].
+    + exists goods. split; [exact Hg|reflexivity].
+Qed.
+
+(* make_slice_cache (repaired) yields exactly the wrap-delimited segments *)
+Lemma container_slices : forall P ph cv, container P ph cv -> make_slice_cache cv = segs_of P ph.
+Proof.
+  intros P ph cv H. destruct (container_cases P ph cv H) as [[_ [-> ->]]|[Hne [-> [goods [Hg ->]]]]].
+  - unfold make_slice_cache.
+    rewrite <- (app_nil_r (repeat (-1) (length ph))). rewrite run_starts_repeat. reflexivity.
+  - rewrite (all_labels_seq P ph goods Hg).
+    pose proof (boundaries_sorted P ph Hne) as Hs. unfold boundaries in *.
+    rewrite adj_length.
+    destruct (slices_expand (wrap_hits P ph ++ [length ph]) 0%nat 0%nat (-1) Hs ltac:(lia)) as [I1 [I2 _]].
+    unfold make_slice_cache. cbn [Z.of_nat] in I1. rewrite I1, I2. apply combine_fst_snd.
+Qed.
+
+Lemma container_seg_bounds : forall P ph cv k a b, container P ph cv ->
+  nth_error (segs_of P ph) k = Some (a, b) -> (a < b <= length ph)%nat.
+Proof.
+  intros P ph cv k a b H Hk. destruct (container_cases P ph cv H) as [[_ [_ E]]|[Hne [E _]]];
+    rewrite E in Hk.
+  - destruct k; discriminate.
+  - eapply seg_bounds; eauto.
+Qed.
+
+Lemma container_seg_adjacent : forall P ph j a' b' a b,
+  nth_error (segs_of P ph) j = Some (a', b') -> nth_error (segs_of P ph) (S j) = Some (a, b) -> b' = a.
+Proof.
+  intros P ph j a' b' a b H1 H2. unfold segs_of in *. destruct (wrap_hits P ph).
+  - destruct j; discriminate.
+  - apply adj_nth_inv in H1. apply adj_nth_inv in H2. destruct H1 as [_ H1]. destruct H2 as [H2 _]. congruence.
+Qed.
+
+Lemma container_ncycles : forall P ph cv, container P ph cv -> ncycles cv = length (segs_of P ph).
+Proof.
+  intros P ph cv H. destruct (container_cases P ph cv H) as [[_ [-> ->]]|[Hne [-> [goods [Hg ->]]]]].
+  - unfold ncycles. rewrite zmax_repeat. reflexivity.
+  - apply ncycles_all; assumption.
+Qed.
+
+Lemma container_length : forall P ph cv, container P ph cv -> length cv = length ph.
+Proof. intros P ph cv H. eapply cycle_vector_length; eauto. Qed.
+
+(* every entry is -1 (no cycles at all) or the number of an existing cycle *)
+Lemma container_labels : forall P ph cv i x, container P ph cv -> nth_error cv i = Some x ->
+  (x = -1 /\ segs_of P ph = []) \/
+  (exists k a b, x = Z.of_nat k /\ nth_error (segs_of P ph) k = Some (a, b) /\ (a <= i < b)%nat).
+Proof.
+  intros P ph cv i x H Hi. destruct (container_cases P ph cv H) as [[_ [-> E]]|[Hne [E [goods [Hg ->]]]]].
+  - left. split; [|exact E]. eapply nth_error_repeat_inv; eauto.
+  - right. destruct (gcv_out_inv _ _ _ _ _ _ _ Hne Hg Hi) as [k [a [b [g [Hk [Hab [_ [_ [Hl _]]]]]]]]].
+    assert (Hkn : (k < length (adj (boundaries P ph)))%nat) by (apply nth_error_Some; congruence).
+    rewrite (labelsA_nth _ _ _ _ k Hg Hkn) in Hl. injection Hl as <-.
+    exists k, a, b. rewrite E. repeat split; try assumption; lia.
+Qed.
+
+(* the samples labelled k are exactly segment k *)
+Lemma container_positions : forall P ph cv k a b, container P ph cv ->
+  nth_error (segs_of P ph) k = Some (a, b) ->
+  map_cycle_to_samples cv (Z.of_nat k) = seq a (b - a).
+Proof.
+  intros P ph cv k a b H Hk. unfold map_cycle_to_samples.
+  apply sorted_ext; [apply positions_sorted|apply seq_sorted|].
+  intros i. rewrite In_positions, in_seq. split.
+  - intros [x [Hx He]]. apply Z.eqb_eq in He. subst x.
+    destruct (container_labels P ph cv i _ H Hx) as [[E _]|[k' [a' [b' [E [Hk' Hab]]]]]]; [lia|].
+    apply Nat2Z.inj in E. subst k'. rewrite Hk in Hk'. injection Hk' as <- <-. lia.
+  - intros Hi. exists (Z.of_nat k). split; [|apply Z.eqb_refl].
+    destruct (container_cases P ph cv H) as [[_ [_ E]]|[Hne [E [goods [Hg ->]]]]]; rewrite E in Hk.
+    + destruct k; discriminate.
+    + assert (Hkn : (k < length (adj (boundaries P ph)))%nat) by (apply nth_error_Some; congruence).
+      eapply out_nth; eauto; [|lia]. apply (labelsA_nth _ _ _ _ k Hg Hkn).
+Qed.
+
+Lemma container_no_negative_label : forall P ph cv k, container P ph cv -> k < 0 ->
+  segs_of P ph <> [] -> map_cycle_to_samples cv k = [].
+Proof.
+  intros P ph cv k H Hk Hne. unfold map_cycle_to_samples.
+  destruct (positions (Z.eqb k) cv) as [|i t] eqn:E; [reflexivity|exfalso].
+  assert (Hin : In i (positions (Z.eqb k) cv)) by (rewrite E; left; reflexivity).
+  apply In_positions in Hin. destruct Hin as [x [Hx He]]. apply Z.eqb_eq in He. subst x.
+  destruct (container_labels P ph cv i _ H Hx) as [[_ E0]|[k' [a' [b' [E' _]]]]]; [congruence|lia].
+Qed.
+
+Lemma take_inds_seq : forall vals a n, (a + n <= length vals)%nat ->
+  take_inds vals (seq a n) = slice vals a (a + n).
+Proof.
+  intros vals a n H. unfold take_inds, slice. rewrite map_nth_seq by exact H.
+  replace (a + n - a)%nat with n by lia. reflexivity.
+Qed.
+
+Lemma container_select : forall P ph cv vals k a b, container P ph cv -> length vals = length ph ->
+  nth_error (segs_of P ph) k = Some (a, b) ->
+  select_cycle cv vals (Z.of_nat k) = slice vals a b.
+Proof.
+  intros P ph cv vals k a b H Hl Hk. unfold select_cycle.
+  rewrite (container_positions P ph cv k a b H Hk).
+  pose proof (container_seg_bounds P ph cv k a b H Hk) as Hb.
+  change (map (fun i => nth i vals 0) (seq a (b - a))) with (take_inds vals (seq a (b - a))).
+  rewrite take_inds_seq by lia. replace (a + (b - a))%nat with b by lia. reflexivity.
+Qed.
+
+Lemma list_as_map_nth : forall A (l : list A) d, l = map (fun k => nth k l d) (seq 0 (length l)).
+Proof.
+  intros A l d. apply nth_error_ext_eq. intros k.
+  destruct (lt_dec k (length l)) as [L|L].
+  - rewrite nth_error_map, nth_error_seq by exact L. cbn [option_map Nat.add].
+    apply nth_error_nth'. exact L.
+  - assert (E : nth_error l k = None) by (apply nth_error_None; lia). rewrite E.
+    symmetry. apply nth_error_None. rewrite map_length, seq_length. lia.
+Qed.
+
+(* cycle mode: slice statistics = label-lookup statistics *)
+Lemma slice_stat_label_stat : forall P ph cv f vals, container P ph cv -> length vals = length ph ->
+  slice_stat f (segs_of P ph) vals = label_stat f cv vals.
+Proof.
+  intros P ph cv f vals H Hl. unfold slice_stat, label_stat, cycle_stat.
+  rewrite (container_ncycles P ph cv H). rewrite map_map.
+  rewrite (list_as_map_nth _ (segs_of P ph) (0%nat, 0%nat)) at 1. rewrite map_map.
+  apply map_ext_in. intros k Hk. apply in_seq in Hk.
+  destruct (nth_error (segs_of P ph) k) as [[a b]|] eqn:E; [|apply nth_error_None in E; lia].
+  rewrite (nth_error_nth _ _ (0%nat, 0%nat) E). cbn [fst snd].
+  rewrite (container_select P ph cv vals k a b H Hl E). reflexivity.
+Qed.
+
+(* ---------- augmented mode ---------------------------------------------------------- *)
+
+Lemma aug_cache_length : forall trough ph sl prev, length (aug_cache_from trough ph prev sl) = length sl.
+Proof. induction sl as [|s t IH]; intros prev; cbn [aug_cache_from length]; [reflexivity|rewrite IH; reflexivity]. Qed.
+
+Lemma aug_cache_nth : forall trough ph sl prev k s,
+  nth_error sl k = Some s ->
+  nth_error (aug_cache_from trough ph prev sl) k =
+    Some (augment_slice trough ph (match k with O => prev | S j => nth_error sl j end) s).
+Proof.
+  induction sl as [|s0 t IH]; intros prev k s Hk.
+  - destruct k; discriminate.
+  - destruct k as [|k]; cbn [nth_error aug_cache_from] in *.
+    + injection Hk as <-. reflexivity.
+    + rewrite (IH (Some s0) k s Hk). destruct k; reflexivity.
+Qed.
+
+Lemma filter_head_find : forall A (q : A -> bool) l,
+  match filter q l with [] => None | p :: _ => Some p end = find q l.
+Proof.
+  induction l as [|x t IH]; cbn [filter find]; [reflexivity|]. destruct (q x); [reflexivity|exact IH].
+Qed.
+
+Lemma last_seq : forall m a, last (seq (S a) m) a = (a + m)%nat.
+Proof.
+  induction m as [|m IH]; intros a; cbn [seq].
+  - cbn [last]. lia.
+  - rewrite last_cons. rewrite IH. lia.
+Qed.
+
+(* cached: the slice statistic of augmented slice k is f over the specified samples *)
+Lemma aug_slice_stat_spec : forall P ph cv trough f vals k, container P ph cv ->
+  (k < length (segs_of P ph))%nat ->
+  nth_error (aug_slice_stat f (make_aug_slice_cache trough ph (segs_of P ph)) vals) k =
+    Some (option_map f (aug_samples P trough ph vals k)).
+Proof.
+  intros P ph cv trough f vals k H Hk. unfold aug_slice_stat, make_aug_slice_cache.
+  destruct (nth_error (segs_of P ph) k) as [[a b]|] eqn:E; [|apply nth_error_None in E; lia].
+  rewrite nth_error_map, (aug_cache_nth trough ph _ None k (a, b) E). cbn [option_map].
+  f_equal. unfold aug_samples, augment_slice. destruct k as [|j]; [reflexivity|].
+  rewrite E. destruct (nth_error (segs_of P ph) j) as [[a' b']|]; [|reflexivity].
+  cbn [snd]. destruct (first_above trough ph a' b'); reflexivity.
+Qed.
+
+(* uncached: map_cycle_to_samples_augmented selects the specified samples *)
+Lemma aug_label_stat_spec : forall P ph cv trough f vals k, container P ph cv ->
+  length vals = length ph -> (k < length (segs_of P ph))%nat ->
+  nth_error (aug_label_stat f trough cv ph vals) k =
+    Some (option_map f (aug_samples P trough ph vals k)).
+Proof.
+  intros P ph cv trough f vals k H Hl Hk. unfold aug_label_stat.
+  rewrite (container_ncycles P ph cv H). rewrite nth_error_map, nth_error_seq by exact Hk.
+  cbn [option_map Nat.add]. f_equal.
+  destruct (nth_error (segs_of P ph) k) as [[a b]|] eqn:E; [|apply nth_error_None in E; lia].
+  assert (Hne : segs_of P ph <> []) by (intro E0; rewrite E0 in E; destruct k; discriminate).
+  unfold map_cycle_to_samples_aug, aug_samples.
+  destruct k as [|j].
+  - cbn [Z.of_nat Z.sub Z.opp Z.add Z.pos_sub].
+    rewrite (container_no_negative_label P ph cv (-1) H ltac:(lia) Hne). reflexivity.
+  - replace (Z.of_nat (S j) - 1) with (Z.of_nat j) by lia. rewrite E.
+    destruct (nth_error (segs_of P ph) j) as [[a' b']|] eqn:E'; [|apply nth_error_None in E'; lia].
+    rewrite (container_positions P ph cv j a' b' H E').
+    rewrite (container_positions P ph cv (S j) a b H E).
+    pose proof (container_seg_bounds P ph cv j a' b' H E') as Hb'.
+    pose proof (container_seg_bounds P ph cv (S j) a b H E) as Hb.
+    pose proof (container_seg_adjacent P ph j a' b' a b E' E) as Hadj.
+    pose proof (filter_head_find nat (fun i => trough <? nth i ph 0) (seq a' (b' - a'))) as Hf.
+    unfold first_above. rewrite <- Hf.
+    destruct (filter (fun i => trough <? nth i ph 0) (seq a' (b' - a'))) as [|p t] eqn:Ef; [reflexivity|].
+    assert (Hp : (a' <= p < b')%nat).
+    { assert (Hin : In p (filter (fun i => trough <? nth i ph 0) (seq a' (b' - a')))) by (rewrite Ef; left; reflexivity).
+      apply filter_In in Hin. destruct Hin as [Hin _]. apply in_seq in Hin. lia. }
+    assert (Eb : (b - a = S (b - a - 1))%nat) by lia. rewrite Eb. cbn [seq].
+    rewrite last_seq. cbn [option_map]. f_equal. f_equal.
+    replace (S (a + (b - a - 1)) - p)%nat with (b - p)%nat by lia.
+    rewrite take_inds_seq by lia. replace (p + (b - p))%nat with b by lia. reflexivity.
+Qed.
+
+(* the two augmented computations agree *)
+Lemma aug_stat_equal : forall P ph cv trough f vals, container P ph cv -> length vals = length ph ->
+  aug_slice_stat f (make_aug_slice_cache trough ph (segs_of P ph)) vals = aug_label_stat f trough cv ph vals.
+Proof.
+  intros P ph cv trough f vals H Hl. apply nth_error_ext_eq. intros k.
+  destruct (lt_dec k (length (segs_of P ph))) as [L|L].
+  - rewrite (aug_slice_stat_spec P ph cv trough f vals k H L).
+    rewrite (aug_label_stat_spec P ph cv trough f vals k H Hl L). reflexivity.
+  - assert (E1 : nth_error (aug_slice_stat f (make_aug_slice_cache trough ph (segs_of P ph)) vals) k = None).
+    { apply nth_error_None. unfold aug_slice_stat, make_aug_slice_cache. rewrite map_length, aug_cache_length. lia. }
+    rewrite E1. symmetry. apply nth_error_None. unfold aug_label_stat.
+    rewrite map_length, seq_length, (container_ncycles P ph cv H). lia.
+Qed.
+
+(* cycle mode, stated on the samples carrying the label *)
+Lemma label_stat_spec : forall f cv vals k, length cv = length vals -> (k < ncycles cv)%nat ->
+  nth_error (label_stat f cv vals) k = Some (Some (f (samples_with_label cv vals (Z.of_nat k)))).
+Proof.
+  intros f cv vals k Hl Hk. unfold label_stat, cycle_stat.
+  rewrite nth_error_map, nth_error_map, nth_error_seq by exact Hk. cbn [option_map Nat.add].
+  rewrite select_cycle_spec by exact Hl. reflexivity.
+Qed.
+
+(* ====================================================================================== *)
+(* C. the metric store                                                                     *)
+(* ====================================================================================== *)
+
+Lemma find_upd : forall n m ms,
+  find_metric n (upd_metric m ms) = if String.eqb n (m_name m) then Some m else find_metric n ms.
+Proof.
+  intros n m ms. unfold find_metric. induction ms as [|x t IH]; cbn [upd_metric find].
+  - reflexivity.
+  - destruct (String.eqb_spec (m_name m) (m_name x)) as [E|E].
+    + cbn [find]. destruct (String.eqb_spec n (m_name m)) as [E1|E1]; [reflexivity|].
+      destruct (String.eqb_spec n (m_name x)) as [E2|E2]; [congruence|reflexivity].
+    + cbn [find]. destruct (String.eqb_spec n (m_name x)) as [E2|E2].
+      * destruct (String.eqb_spec n (m_name m)); [congruence|reflexivity].
+      * exact IH.
+Qed.
+
+Lemma Forall_upd : forall (Q : metric -> Prop) m ms, Forall Q ms -> Q m -> Forall Q (upd_metric m ms).
+Proof.
+  intros Q m ms H Hm. induction H as [|x t Hx Ht IH]; cbn [upd_metric].
+  - constructor; [exact Hm|constructor].
+  - destruct (String.eqb (m_name m) (m_name x)); constructor; assumption.
+Qed.
+
+Lemma find_metric_In : forall n ms m, find_metric n ms = Some m -> In m ms /\ m_name m = n.
+Proof.
+  intros n ms m H. unfold find_metric in H. apply find_some in H. destruct H as [Hin He].
+  apply String.eqb_eq in He. split; [exact Hin|symmetry; exact He].
+Qed.
+
+Lemma metric_ok_set_metrics : forall st ms c m, metric_ok (set_metrics st ms c) m = metric_ok st m.
+Proof. reflexivity. Qed.
+
+(* ---------- what an operation never touches ------------------------------------------- *)
+Definition frame (st st' : cstate) : Prop :=
+  s_P st' = s_P st /\ s_trough st' = s_trough st /\ s_ph st' = s_ph st /\ s_cv st' = s_cv st /\
+  s_cache st' = s_cache st.
+
+Lemma frame_refl : forall st, frame st st.
+Proof. intros st. unfold frame. repeat split. Qed.
+
+Lemma frame_trans : forall a b c, frame a b -> frame b c -> frame a c.
+Proof.
+  unfold frame. intros a b c [H1 [H2 [H3 [H4 H5]]]] [G1 [G2 [G3 [G4 G5]]]].
+  repeat split; congruence.
+Qed.
+
+Lemma add_metric_frame : forall st n p v, frame st (fst (add_metric st n p v)).
+Proof.
+  intros st n p v. unfold add_metric. destruct (length v =? ncyc st)%nat; cbn [fst].
+  - unfold frame. cbn. repeat split.
+  - apply frame_refl.
+Qed.
+
+Lemma compute_metric_frame : forall st n f mode vals, frame st (compute_metric st n f mode vals).
+Proof. intros. unfold compute_metric. apply add_metric_frame. Qed.
+
+Lemma timings_frame : forall st, frame st (timings st).
+Proof.
+  intros st. unfold timings.
+  eapply frame_trans; [apply compute_metric_frame|].
+  eapply frame_trans; [apply compute_metric_frame|]. apply compute_metric_frame.
+Qed.
+
+Lemma pick_frame : forall st cs, frame st (fst (pick st cs)).
+Proof.
+  intros st cs. unfold pick. destruct (get_matching st cs) as [valids|e]; [|apply frame_refl].
+  destruct (get_chain_vector (get_subset_vector valids)) as [|c t]; [apply frame_refl|].
+  cbn [fst]. eapply frame_trans; [|apply add_metric_frame]. unfold frame. cbn. repeat split.
+Qed.
+
+Lemma chain_t_loop_frame : forall kinds st chv sv st', chain_t_loop st chv sv kinds = Some st' -> frame st st'.
+Proof.
+  induction kinds as [|k t IH]; intros st chv sv st' H; cbn [chain_t_loop] in H.
+  - injection H as <-. apply frame_refl.
+  - destruct (chain_t_vals st chv sv k) as [vals|]; [|discriminate].
+    eapply frame_trans; [apply add_metric_frame|]. eapply IH; eauto.
+Qed.
+
+Lemma chain_timings_frame : forall st, frame st (fst (chain_timings st)).
+Proof.
+  intros st. unfold chain_timings.
+  destruct (s_conds st); [|apply frame_refl]. destruct (s_subset st) as [sv|]; [|apply frame_refl].
+  destruct (s_chain st) as [chv|]; [|apply frame_refl].
+  destruct (chain_t_loop st chv sv [0; 1; 2; 3; 4]%nat) as [st'|] eqn:E; [|apply frame_refl].
+  cbn [fst]. eapply chain_t_loop_frame; eauto.
+Qed.
+
+Lemma step_frame : forall st o, frame st (fst (step st o)).
+Proof.
+  intros st o. destruct o as [n f mode vals|n vals| |cs| |w]; cbn [step fst].
+  - apply compute_metric_frame.
+  - pose proof (add_metric_frame st n PAdded vals) as H.
+    destruct (add_metric st n PAdded vals) as [st' b]. exact H.
+  - apply timings_frame.
+  - apply pick_frame.
+  - apply chain_timings_frame.
+  - apply frame_refl.
+Qed.
+
+(* ====================================================================================== *)
+(* D. chain-level metrics                                                                   *)
+(* ====================================================================================== *)
+
+Lemma chain_nonneg : forall sv j c, nth_error (get_chain_vector sv) j = Some c -> 0 <= c.
+Proof.
+  intros sv. destruct (chain_vector_spec sv) as [Hlen [H0 Hstep]].
+  induction j as [|j IH]; intros c Hc.
+  - rewrite (H0 c Hc). lia.
+  - assert (Hj : (S j < length (get_chain_vector sv))%nat) by (apply nth_error_Some; congruence).
+    destruct (nth_error (selected_cycles sv) j) as [a|] eqn:Ea; [|apply nth_error_None in Ea; lia].
+    destruct (nth_error (selected_cycles sv) (S j)) as [b|] eqn:Eb; [|apply nth_error_None in Eb; lia].
+    destruct (nth_error (get_chain_vector sv) j) as [ca|] eqn:Eca; [|apply nth_error_None in Eca; lia].
+    specialize (IH ca eq_refl).
+    destruct (Hstep j a b ca c Ea Eb Eca Hc) as [S1 S2].
+    destruct (Nat.eq_dec b (S a)) as [E|E]; [rewrite (S1 E)|rewrite (S2 E)]; lia.
+Qed.
+
+Lemma nan_to_m1_nth : forall l k, nth_error (nan_to_m1 l) k =
+  option_map (fun o => match o with Some v => Some v | None => Some (-1) end) (nth_error l k).
+Proof. intros. unfold nan_to_m1. apply nth_error_map. Qed.
+
+Lemma project_length : forall A (vect : list Z) (vals : list A), length (project_by vect vals) = length vect.
+Proof.
+  intros A vect vals. destruct (Nat.eq_dec (length (project_by vect vals)) (length vect)) as [E|E]; [exact E|exfalso].
+  destruct (lt_dec (length (project_by vect vals)) (length vect)) as [L|L].
+  - assert (N : nth_error (project_by vect vals) (length (project_by vect vals)) = None) by (apply nth_error_None; lia).
+    rewrite project_by_spec in N.
+    destruct (nth_error vect (length (project_by vect vals))) eqn:E1; [discriminate|].
+    apply nth_error_None in E1. lia.
+  - assert (N : nth_error vect (length vect) = None) by (apply nth_error_None; lia).
+    pose proof (project_by_spec A vect vals (length vect)) as Hs. rewrite N in Hs. cbn in Hs.
+    apply nth_error_None in Hs. lia.
+Qed.
+
+Lemma project_chain_length : forall A (vals : list A) chv sv,
+  length (project_chain_to_cycles vals chv sv) = length sv.
+Proof.
+  intros. unfold project_chain_to_cycles, join_opt. rewrite map_length. apply project_length.
+Qed.
+
+(* a per-chain quantity projected onto the cycles *)
+Lemma project_chain_value : forall valids stats (g : nat -> Z) k,
+  let sv := get_subset_vector valids in
+  let chv := get_chain_vector sv in
+  (forall c, (c < nchains chv)%nat -> nth_error stats c = Some (g c)) ->
+  (k < length valids)%nat ->
+  nth_error (nan_to_m1 (project_chain_to_cycles stats chv sv)) k = Some (Some (chain_value chv sv g k)).
+Proof.
+  intros valids stats g k sv chv Hst Hk.
+  rewrite nan_to_m1_nth, project_chain_to_cycles_spec.
+  unfold chain_value, map_cycle_to_chain.
+  assert (E1 : map_cycle_to_subset sv (Z.of_nat k) =
+               if nth k valids false then FVal (Z.of_nat (count_true (firstn k valids))) else FNone)
+    by (apply cycle_to_subset_val; exact Hk).
+  assert (E2 : nth_error sv k =
+               Some (if nth k valids false then Z.of_nat (count_true (firstn k valids)) else -1)).
+  { unfold sv. rewrite subset_vector_spec, (nth_error_nth' valids false Hk). reflexivity. }
+  rewrite E1, E2. cbn [option_map].
+  destruct (nth k valids false) eqn:Eb; [|reflexivity].
+  pose proof (subset_val_lt_chv valids k Eb) as Hs. fold sv in Hs. fold chv in Hs.
+  set (s := Z.of_nat (count_true (firstn k valids))) in *.
+  destruct (Z.leb_spec 0 s) as [_|L]; [|lia].
+  unfold map_subset_to_chain. rewrite py_index_nonneg by lia.
+  destruct (nth_error chv (Z.to_nat s)) as [c|] eqn:Ec; [|apply nth_error_None in Ec; lia].
+  pose proof (chain_nonneg sv _ c Ec) as Hc0.
+  destruct (Z.leb_spec 0 c) as [_|L]; [|lia].
+  assert (Hcn : (Z.to_nat c < nchains chv)%nat).
+  { unfold nchains. pose proof (zmax_list_ge (-1) chv c (nth_error_In _ _ Ec)). lia. }
+  rewrite (Hst _ Hcn). reflexivity.
+Qed.
+
+Lemma arange_nth : forall n c, (c < n)%nat -> nth_error (arange n) c = Some (Z.of_nat c).
+Proof. intros n c H. unfold arange. rewrite nth_error_map, nth_error_seq by exact H. reflexivity. Qed.
+
+Lemma chain_ind_ok : forall valids k,
+  let sv := get_subset_vector valids in
+  let chv := get_chain_vector sv in
+  (k < length valids)%nat ->
+  nth_error (chain_ind_vals chv sv) k = Some (Some (chain_value chv sv (fun c => Z.of_nat c) k)).
+Proof.
+  intros valids k sv chv Hk. unfold chain_ind_vals.
+  apply project_chain_value; [|exact Hk]. intros c Hc. apply arange_nth. exact Hc.
+Qed.
+
+Lemma chain_ind_length : forall valids,
+  length (chain_ind_vals (get_chain_vector (get_subset_vector valids)) (get_subset_vector valids)) = length valids.
+Proof.
+  intros. unfold chain_ind_vals, nan_to_m1. rewrite map_length, project_chain_length. apply sv_length.
+Qed.
+
+Lemma chain_stat_nth : forall f chv sv cv vals stats c,
+  chain_stat f chv sv cv vals = Some stats -> (c < nchains chv)%nat ->
+  nth_error stats c = Some (match map_chain_to_samples chv sv cv (Z.of_nat c) with
+                            | Some inds => f (take_inds vals inds)
+                            | None => -1
+                            end).
+Proof.
+  intros f chv sv cv vals stats c H Hc. unfold chain_stat in H.
+  pose proof (all_some_nth _ _ _ H c) as E.
+  rewrite nth_error_map, nth_error_seq in E by exact Hc. cbn [option_map Nat.add] in E.
+  destruct (nth_error stats c) as [v|] eqn:Ev; cbn [option_map] in E.
+  - destruct (map_chain_to_samples chv sv cv (Z.of_nat c)); cbn [option_map] in E; [|discriminate].
+    injection E as E. rewrite E. reflexivity.
+  - destruct (map_chain_to_samples chv sv cv (Z.of_nat c)); discriminate.
+Qed.
+
+Lemma chain_t_vals_length : forall st valids kind vals,
+  chain_t_vals st (get_chain_vector (get_subset_vector valids)) (get_subset_vector valids) kind = Some vals ->
+  length vals = length valids.
+Proof.
+  intros st valids kind vals H.
+  assert (G : forall (stats : list Z),
+            length (nan_to_m1 (project_chain_to_cycles stats (get_chain_vector (get_subset_vector valids))
+                                                        (get_subset_vector valids))) = length valids).
+  { intros. unfold nan_to_m1. rewrite map_length, project_chain_length. apply sv_length. }
+  destruct kind as [|[|[|[|[|kk]]]]]; cbn [chain_t_vals] in H.
+  5:{ injection H as <-. unfold nan_to_m1, project_subset_to_cycles.
+      rewrite map_length, project_length. apply sv_length. }
+  all: match type of H with option_map _ ?x = _ => destruct x as [stats|]; [|discriminate] end;
+       injection H as <-; apply G.
+Qed.
+
+Lemma chain_t_vals_ok : forall st valids kind vals,
+  let sv := get_subset_vector valids in
+  let chv := get_chain_vector sv in
+  length valids = ncyc st ->
+  chain_t_vals st chv sv kind = Some vals ->
+  chain_metric_ok st sv chv (PChainT kind) vals.
+Proof.
+  intros st valids kind vals sv chv Hl H.
+  assert (G : forall kk, kk <> 4%nat ->
+            option_map (fun stats => nan_to_m1 (project_chain_to_cycles stats chv sv))
+                       (chain_stat (chain_t_f kk) chv sv (s_cv st) (chain_t_src st kk)) = Some vals ->
+            forall k, (k < ncyc st)%nat ->
+              nth_error vals k = Some (Some (chain_value chv sv (chain_quantity st chv sv kk) k))).
+  { intros kk _ Hv k Hk.
+    destruct (chain_stat (chain_t_f kk) chv sv (s_cv st) (chain_t_src st kk)) as [stats|] eqn:Es; [|discriminate].
+    injection Hv as <-. apply project_chain_value; [|lia].
+    intros c Hc. rewrite (chain_stat_nth _ _ _ _ _ _ c Es Hc). reflexivity. }
+  destruct kind as [|[|[|[|[|kk]]]]]; cbn [chain_metric_ok]; cbn [chain_t_vals] in H.
+  5:{ injection H as <-. intros k Hk.
+      rewrite nan_to_m1_nth. unfold project_subset_to_cycles. rewrite project_by_spec.
+      assert (Hkv : (k < length valids)%nat) by lia.
+      assert (E1 : map_cycle_to_subset sv (Z.of_nat k) =
+                   if nth k valids false then FVal (Z.of_nat (count_true (firstn k valids))) else FNone)
+        by (apply cycle_to_subset_val; exact Hkv).
+      assert (E2 : nth_error sv k =
+                   Some (if nth k valids false then Z.of_nat (count_true (firstn k valids)) else -1)).
+      { unfold sv. rewrite subset_vector_spec, (nth_error_nth' valids false Hkv). reflexivity. }
+      rewrite E1, E2. cbn [option_map].
+      destruct (nth k valids false) eqn:Eb; [|reflexivity].
+      pose proof (subset_val_lt_chv valids k Eb) as Hs. fold sv in Hs. fold chv in Hs.
+      set (s := Z.of_nat (count_true (firstn k valids))) in *.
+      destruct (Z.leb_spec 0 s) as [_|L]; [|lia].
+      unfold chain_pos. rewrite nth_error_map, nth_error_seq by lia. reflexivity. }
+  all: apply G; [lia|exact H].
+Qed.
+
+(* under the invariant no chain map is undefined: compute_chain_timings cannot fail half way *)
+Lemma container_wf_labels : forall P ph cv, container P ph cv -> wf_labels cv (ncycles cv).
+Proof.
+  intros P ph cv H. unfold wf_labels. apply Forall_forall. intros x Hx.
+  apply In_nth_error in Hx. destruct Hx as [i Hi].
+  pose proof (zmax_list_ge (-1) cv x (nth_error_In _ _ Hi)) as Hm.
+  destruct (container_labels P ph cv i x H Hi) as [[-> _]|[k [a [b [-> _]]]]]; unfold ncycles; lia.
+Qed.
+
+Lemma chain_t_vals_some : forall st valids kind, container (s_P st) (s_ph st) (s_cv st) ->
+  length valids = ncyc st ->
+  chain_t_vals st (get_chain_vector (get_subset_vector valids)) (get_subset_vector valids) kind <> None.
+Proof.
+  intros st valids kind Hc Hl.
+  assert (G : forall f src, chain_stat f (get_chain_vector (get_subset_vector valids)) (get_subset_vector valids)
+                                     (s_cv st) src <> None).
+  { intros f src. unfold chain_stat. apply all_some_total. intros x Hx.
+    apply in_map_iff in Hx. destruct Hx as [c [<- _]].
+    pose proof (container_wf_labels _ _ _ Hc) as Hwf. unfold ncyc in Hl. rewrite <- Hl in Hwf.
+    destruct (maps_defined (s_cv st) valids Hwf) as [_ [_ [_ Hd]]]. specialize (Hd (Z.of_nat c)).
+    destruct (map_chain_to_samples (get_chain_vector (get_subset_vector valids)) (get_subset_vector valids)
+                                   (s_cv st) (Z.of_nat c)); [discriminate|congruence]. }
+  destruct kind as [|[|[|[|[|kk]]]]]; cbn [chain_t_vals]; try discriminate.
+  all: match goal with |- option_map _ (chain_stat ?f _ _ _ ?src) <> None =>
+         specialize (G f src); destruct (chain_stat f (get_chain_vector (get_subset_vector valids))
+                                                    (get_subset_vector valids) (s_cv st) src);
+         [discriminate|congruence] end.
+Qed.
+
+(* ====================================================================================== *)
+(* E. the invariant                                                                         *)
+(* ====================================================================================== *)
+
+Ltac proj := cbn [s_P s_trough s_ph s_cv s_cache s_metrics s_subset s_chain s_conds s_valids s_clock
+                  s_pick_clock set_metrics set_subset drop_cache fst snd] in *.
+
+(* get_matching_cycles reads nothing but the metrics *)
+Definition gm (ms : list metric) (cs : list string) : res (list bool) :=
+  match find_metric "is_good" ms with
+  | None => Err 4
+  | Some g =>
+      match resolve ms cs with
+      | Err e => Err e
+      | Ok r => Ok (map (sat_all r) (seq 0 (length (m_vals g))))
+      end
+  end.
+
+Lemma get_matching_gm : forall st cs, get_matching st cs = gm (s_metrics st) cs.
+Proof. reflexivity. Qed.
+
+Definition fresh_in (ms : list metric) (pc : nat) (cs : list string) : Prop :=
+  Forall (fun s => match parse_cond s with
+                   | None => False
+                   | Some c => match find_metric (c_name c) ms with
+                               | None => False
+                               | Some m => (m_stamp m < pc)%nat
+                               end
+                   end) cs.
+
+Lemma fresh_conds_in : forall st cs, fresh_conds st cs = fresh_in (s_metrics st) (s_pick_clock st) cs.
+Proof. reflexivity. Qed.
+
+Lemma resolve_upd_fresh : forall ms m' pc cs,
+  fresh_in (upd_metric m' ms) pc cs -> (pc <= m_stamp m')%nat ->
+  resolve (upd_metric m' ms) cs = resolve ms cs /\ fresh_in ms pc cs.
+Proof.
+  intros ms m' pc cs H Hpc. unfold fresh_in in *. induction H as [|s t Hs Ht IH].
+  - split; [reflexivity|constructor].
+  - destruct IH as [I1 I2]. cbn [resolve].
+    destruct (parse_cond s) as [c|] eqn:Ep; [|destruct Hs].
+    rewrite find_upd in Hs. rewrite find_upd.
+    destruct (String.eqb (c_name c) (m_name m')) eqn:En; [lia|].
+    rewrite I1. split; [reflexivity|]. constructor; [rewrite Ep; exact Hs|exact I2].
+Qed.
+
+Lemma gm_upd : forall ms m' cs v n,
+  gm ms cs = Ok v -> resolve (upd_metric m' ms) cs = resolve ms cs ->
+  (forall g, find_metric "is_good" ms = Some g -> length (m_vals g) = n) -> length (m_vals m') = n ->
+  gm (upd_metric m' ms) cs = Ok v.
+Proof.
+  unfold gm. intros ms m' cs v n H Hr Hg Hl. rewrite find_upd.
+  destruct (find_metric "is_good" ms) as [g|] eqn:Eg; [|discriminate].
+  rewrite Hr. destruct (resolve ms cs) as [r|e]; [|discriminate].
+  destruct (String.eqb "is_good" (m_name m')); [|exact H].
+  rewrite Hl, <- (Hg g eq_refl). exact H.
+Qed.
+
+Lemma is_good_length : forall st g, Forall (metric_ok st) (s_metrics st) ->
+  find_metric "is_good" (s_metrics st) = Some g -> length (m_vals g) = ncyc st.
+Proof.
+  intros st g H Hf. apply find_metric_In in Hf. destruct Hf as [Hin _].
+  rewrite Forall_forall in H. exact (proj1 (H g Hin)).
+Qed.
+
+Lemma sel_ok_set_metrics : forall st m',
+  Forall (metric_ok st) (s_metrics st) -> (s_pick_clock st <= s_clock st)%nat ->
+  m_stamp m' = S (s_clock st) -> length (m_vals m') = ncyc st ->
+  sel_ok st -> sel_ok (set_metrics st (upd_metric m' (s_metrics st)) (S (s_clock st))).
+Proof.
+  intros st m' Hm Hp Hst Hl Hs. unfold sel_ok in *. proj.
+  destruct (s_conds st) as [cs|]; destruct (s_subset st) as [sv|]; destruct (s_chain st) as [chv|];
+    try exact Hs.
+  destruct Hs as [H1 [H2 [H3 [H4 H5]]]]. repeat split; try assumption.
+  intros Hf. rewrite fresh_conds_in in Hf. rewrite get_matching_gm. proj.
+  destruct (resolve_upd_fresh _ _ _ _ Hf ltac:(lia)) as [Hr Hf0].
+  specialize (H5 Hf0). rewrite get_matching_gm in H5.
+  eapply gm_upd; eauto. intros g Hg. eapply is_good_length; eauto.
+Qed.
+
+Lemma inv_add_metric : forall st name p vals,
+  Inv st ->
+  (length vals = ncyc st ->
+   metric_ok st {| m_name := name; m_vals := vals; m_prov := p; m_stamp := S (s_clock st) |}) ->
+  Inv (fst (add_metric st name p vals)).
+Proof.
+  intros st name p vals HI Hnew. unfold add_metric.
+  destruct (Nat.eqb_spec (length vals) (ncyc st)) as [E|E]; cbn [fst]; [|exact HI].
+  destruct HI as [Hc [Hk [Hm [Hs [Ht Hp]]]]]. specialize (Hnew E).
+  unfold Inv. split; [exact Hc|]. split; [exact Hk|]. split; [|split; [|split]].
+  - proj. apply Forall_upd; [|exact Hnew].
+    eapply Forall_impl; [|exact Hm]. intros m Hmm. exact Hmm.
+  - apply sel_ok_set_metrics; try assumption; reflexivity.
+  - proj. apply Forall_upd; [|cbn; lia].
+    eapply Forall_impl; [|exact Ht]. cbn beta. intros m Hmm. lia.
+  - proj. lia.
+Qed.
+
+(* ---------- compute_cycle_metric -------------------------------------------------------- *)
+
+Lemma frame_nsamples : forall st st', frame st st' -> nsamples st' = nsamples st.
+Proof. intros st st' [_ [_ [_ [H _]]]]. unfold nsamples. rewrite H. reflexivity. Qed.
+
+Lemma compute_vals_label : forall st f mode vals,
+  container (s_P st) (s_ph st) (s_cv st) -> cache_ok st -> length vals = nsamples st ->
+  compute_vals st f mode vals =
+    match mode with
+    | MCycle => label_stat f (s_cv st) vals
+    | MAug => aug_label_stat f (s_trough st) (s_cv st) (s_ph st) vals
+    end.
+Proof.
+  intros st f mode vals Hc Hk Hl.
+  assert (Hl' : length vals = length (s_ph st)).
+  { unfold nsamples in Hl. rewrite Hl. eapply container_length; eauto. }
+  unfold compute_vals. destruct Hk as [E|E]; rewrite E; destruct mode; try reflexivity.
+  - eapply slice_stat_label_stat; eauto.
+  - eapply aug_stat_equal; eauto.
+Qed.
+
+Lemma compute_metric_ok : forall st name f mode vals stamp,
+  container (s_P st) (s_ph st) (s_cv st) -> cache_ok st -> length vals = nsamples st ->
+  metric_ok st {| m_name := name; m_vals := compute_vals st f mode vals;
+                  m_prov := PComputed f mode vals; m_stamp := stamp |}.
+Proof.
+  intros st name f mode vals stamp Hc Hk Hl. unfold metric_ok. cbn [m_vals m_prov].
+  rewrite (compute_vals_label st f mode vals Hc Hk Hl).
+  assert (Hl' : length vals = length (s_ph st)).
+  { unfold nsamples in Hl. rewrite Hl. eapply container_length; eauto. }
+  destruct mode.
+  - split; [unfold label_stat; rewrite map_length, cycle_stat_length; reflexivity|].
+    split; [exact Hl|]. intros k Hk'. apply label_stat_spec; [|exact Hk'].
+    unfold nsamples in Hl. symmetry. exact Hl.
+  - split; [unfold aug_label_stat; rewrite map_length, seq_length; reflexivity|].
+    split; [exact Hl|]. intros k Hk'.
+    eapply aug_label_stat_spec; eauto. rewrite <- (container_ncycles _ _ _ Hc). exact Hk'.
+Qed.
+
+Lemma compute_vals_length : forall st f mode vals,
+  container (s_P st) (s_ph st) (s_cv st) -> cache_ok st -> length vals = nsamples st ->
+  length (compute_vals st f mode vals) = ncyc st.
+Proof. intros. exact (proj1 (compute_metric_ok st EmptyString f mode vals 0%nat H H0 H1)). Qed.
+
+Lemma inv_compute : forall st name f mode vals, Inv st -> length vals = nsamples st ->
+  Inv (compute_metric st name f mode vals).
+Proof.
+  intros st name f mode vals HI Hl. unfold compute_metric. apply inv_add_metric; [exact HI|].
+  intros _. destruct HI as [Hc [Hk _]]. apply compute_metric_ok; assumption.
+Qed.
+
+Lemma arange_length : forall n, length (arange n) = n.
+Proof. intros. unfold arange. rewrite map_length, seq_length. reflexivity. Qed.
+
+Lemma inv_timings : forall st, Inv st -> Inv (timings st).
+Proof.
+  intros st HI. unfold timings.
+  pose proof (compute_metric_frame st "start_sample" f_first MCycle (arange (nsamples st))) as F1.
+  set (st1 := compute_metric st "start_sample" f_first MCycle (arange (nsamples st))) in *.
+  pose proof (compute_metric_frame st1 "stop_sample" f_last MCycle (arange (nsamples st))) as F2.
+  set (st2 := compute_metric st1 "stop_sample" f_last MCycle (arange (nsamples st))) in *.
+  assert (I1 : Inv st1) by (apply inv_compute; [exact HI|apply arange_length]).
+  assert (I2 : Inv st2).
+  { apply inv_compute; [exact I1|]. rewrite arange_length. symmetry. apply frame_nsamples. exact F1. }
+  apply inv_compute; [exact I2|].
+  rewrite (frame_nsamples _ _ F2), (frame_nsamples _ _ F1). reflexivity.
+Qed.
+
+(* ---------- pick_cycle_subset ------------------------------------------------------------- *)
+
+Lemma gm_length : forall ms cs v, gm ms cs = Ok v ->
+  exists g, find_metric "is_good" ms = Some g /\ length v = length (m_vals g).
+Proof.
+  unfold gm. intros ms cs v H. destruct (find_metric "is_good" ms) as [g|]; [|discriminate].
+  destruct (resolve ms cs) as [r|e]; [|discriminate]. injection H as <-.
+  exists g. split; [reflexivity|]. rewrite map_length, seq_length. reflexivity.
+Qed.
+
+Lemma get_matching_length : forall st cs v, Forall (metric_ok st) (s_metrics st) ->
+  get_matching st cs = Ok v -> length v = ncyc st.
+Proof.
+  intros st cs v Hm H. rewrite get_matching_gm in H. destruct (gm_length _ _ _ H) as [g [Hg ->]].
+  eapply is_good_length; eauto.
+Qed.
+
+Lemma inv_pick : forall st cs, Inv st -> Inv (fst (pick st cs)).
+Proof.
+  intros st cs HI. unfold pick.
+  destruct (get_matching st cs) as [valids|e] eqn:Eg; [|exact HI].
+  destruct (get_chain_vector (get_subset_vector valids)) as [|c0 ct] eqn:Ec; [exact HI|].
+  cbn [fst]. rewrite <- Ec.
+  destruct HI as [Hc [Hk [Hm [Hs [Ht Hp]]]]].
+  pose proof (get_matching_length st cs valids Hm Eg) as Hlv.
+  apply inv_add_metric.
+  - unfold Inv. split; [exact Hc|]. split; [exact Hk|]. split; [|split; [|split]].
+    + proj. rewrite Forall_forall in *. intros m Hin. specialize (Hm m Hin). specialize (Ht m Hin).
+      unfold metric_ok in *. proj. destruct Hm as [Hm1 Hm2]. split; [exact Hm1|].
+      destruct (m_prov m) as [f [|] v| | |kind]; try exact Hm2; intros Hlt; lia.
+    + unfold sel_ok. proj. split; [exact Hlv|]. split; [reflexivity|]. split; [reflexivity|].
+      split; [rewrite Ec; discriminate|]. intros _. exact Eg.
+    + proj. eapply Forall_impl; [|exact Ht]. cbn beta. intros m Hmm. lia.
+    + proj. lia.
+  - intros _. unfold metric_ok. cbn [m_vals m_prov m_stamp]. proj.
+    split; [rewrite chain_ind_length; exact Hlv|].
+    intros _. cbn [chain_metric_ok]. intros k Hk'. apply chain_ind_ok.
+    unfold ncyc in *. proj. lia.
+Qed.
+
+(* ---------- compute_chain_timings ---------------------------------------------------------- *)
+
+Lemma add_metric_sel : forall st n p v,
+  s_subset (fst (add_metric st n p v)) = s_subset st /\ s_chain (fst (add_metric st n p v)) = s_chain st /\
+  s_conds (fst (add_metric st n p v)) = s_conds st /\
+  s_valids (fst (add_metric st n p v)) = s_valids st /\
+  s_pick_clock (fst (add_metric st n p v)) = s_pick_clock st.
+Proof.
+  intros st n p v. unfold add_metric. destruct (length v =? ncyc st)%nat; cbn; repeat split.
+Qed.
+
+Lemma inv_chain_loop : forall kinds st sv chv st',
+  Inv st -> s_subset st = Some sv -> s_chain st = Some chv ->
+  chain_t_loop st chv sv kinds = Some st' -> Inv st'.
+Proof.
+  induction kinds as [|k t IH]; intros st sv chv st' HI Hsv Hchv H; cbn [chain_t_loop] in H.
+  - injection H as <-. exact HI.
+  - destruct (chain_t_vals st chv sv k) as [vals|] eqn:Ev; [|discriminate].
+    destruct (add_metric_sel st (chain_t_name k) (PChainT k) vals) as [A1 [A2 _]].
+    eapply (IH _ sv chv st'); [|rewrite A1; exact Hsv|rewrite A2; exact Hchv|exact H].
+    apply inv_add_metric; [exact HI|]. intros Hl.
+    unfold metric_ok. cbn [m_vals m_prov m_stamp]. split; [exact Hl|].
+    intros _. rewrite Hsv, Hchv.
+    destruct HI as [_ [_ [_ [Hs _]]]]. unfold sel_ok in Hs. rewrite Hsv, Hchv in Hs.
+    destruct (s_conds st); [|destruct Hs]. destruct Hs as [H1 [H2 [H3 _]]].
+    subst sv chv. apply chain_t_vals_ok; assumption.
+Qed.
+
+Lemma inv_chain_timings : forall st, Inv st -> Inv (fst (chain_timings st)).
+Proof.
+  intros st HI. unfold chain_timings.
+  destruct (s_conds st); [|exact HI]. destruct (s_subset st) as [sv|] eqn:Esv; [|exact HI].
+  destruct (s_chain st) as [chv|] eqn:Echv; [|exact HI].
+  destruct (chain_t_loop st chv sv [0; 1; 2; 3; 4]%nat) as [st'|] eqn:E; [|exact HI].
+  cbn [fst]. eapply inv_chain_loop; eauto.
+Qed.
+
+(* ---------- all operations, all histories ---------------------------------------------------- *)
+
+Lemma inv_step : forall st o, Inv st -> wf_op (nsamples st) o -> Inv (fst (step st o)).
+Proof.
+  intros st o HI Hwf. destruct o as [n f mode vals|n vals| |cs| |w]; cbn [step fst].
+  - apply inv_compute; [exact HI|exact Hwf].
+  - pose proof (inv_add_metric st n PAdded vals HI) as H.
+    destruct (add_metric st n PAdded vals) as [st' b]. cbn [fst] in *. apply H.
+    intros Hl. unfold metric_ok. cbn [m_vals m_prov]. split; [exact Hl|exact I].
+  - apply inv_timings. exact HI.
+  - apply inv_pick. exact HI.
+  - apply inv_chain_timings. exact HI.
+  - exact HI.
+Qed.
+
+Lemma inv_empty : forall P trough c ph cv, container P ph cv -> Inv (empty_state P trough c ph cv).
+Proof.
+  intros P trough c ph cv H. unfold Inv, empty_state. proj.
+  split; [exact H|]. split; [|split; [constructor|split; [exact I|split; [constructor|lia]]]].
+  unfold cache_ok. proj. destruct c; [right|left; reflexivity].
+  rewrite (container_slices P ph cv H). reflexivity.
+Qed.
+
+Lemma inv_init : forall P trough c ph st, init P trough c ph = Some st -> Inv st.
+Proof.
+  intros P trough c ph st H. unfold init in H.
+  destruct (get_cycle_vector P false None ph) as [cv|] eqn:E; [|discriminate]. injection H as <-.
+  apply inv_compute; [apply inv_empty; exact E|].
+  unfold nsamples, empty_state. proj. symmetry. eapply container_length; eauto.
+Qed.
+
+Lemma init_nsamples : forall P trough c ph st, init P trough c ph = Some st -> nsamples st = length ph.
+Proof.
+  intros P trough c ph st H. unfold init in H.
+  destruct (get_cycle_vector P false None ph) as [cv|] eqn:E; [|discriminate]. injection H as <-.
+  rewrite (frame_nsamples _ _ (compute_metric_frame _ _ _ _ _)).
+  unfold nsamples, empty_state. proj. eapply container_length; eauto.
+Qed.
+
+Lemma inv_run : forall ops st, Inv st -> Forall (wf_op (nsamples st)) ops -> Inv (run st ops).
+Proof.
+  induction ops as [|o t IH]; intros st HI Hwf; [exact HI|].
+  inversion Hwf as [|? ? Ho Ht]; subst. unfold run. cbn [fold_left].
+  change (Inv (run (fst (step st o)) t)). apply IH; [apply inv_step; assumption|].
+  rewrite (frame_nsamples _ _ (step_frame st o)). exact Ht.
+Qed.
+
+Lemma inv_reachable : forall P trough c ph st ops,
+  init P trough c ph = Some st -> Forall (wf_op (length ph)) ops -> Inv (run st ops).
+Proof.
+  intros P trough c ph st ops H Hwf. apply inv_run; [eapply inv_init; eauto|].
+  rewrite (init_nsamples _ _ _ _ _ H). exact Hwf.
+Qed.
+
+(* the constructor never fails *)
+Lemma init_total : forall P trough c ph, init P trough c ph <> None.
+Proof.
+  intros P trough c ph. unfold init. pose proof (detection_total P false None ph) as H.
+  destruct (get_cycle_vector P false None ph); [discriminate|congruence].
+Qed.
+
+(* ====================================================================================== *)
+(* F. the slice cache changes no result                                                     *)
+(* ====================================================================================== *)
+
+Definition cok (st : cstate) : Prop := container (s_P st) (s_ph st) (s_cv st) /\ cache_ok st.
+
+Lemma frame_cok : forall st st', frame st st' -> cok st -> cok st'.
+Proof.
+  intros st st' [F1 [F2 [F3 [F4 F5]]]] [Hc Hk]. unfold cok, cache_ok in *.
+  rewrite F1, F2, F3, F4, F5. split; assumption.
+Qed.
+
+Lemma add_metric_drop : forall st n p v,
+  add_metric (drop_cache st) n p v = (drop_cache (fst (add_metric st n p v)), snd (add_metric st n p v)).
+Proof.
+  intros. unfold add_metric. change (ncyc (drop_cache st)) with (ncyc st).
+  destruct (length v =? ncyc st)%nat; reflexivity.
+Qed.
+
+Lemma compute_metric_drop : forall st n f mode vals, cok st -> length vals = nsamples st ->
+  compute_metric (drop_cache st) n f mode vals = drop_cache (compute_metric st n f mode vals).
+Proof.
+  intros st n f mode vals [Hc Hk] Hl. unfold compute_metric. rewrite add_metric_drop. cbn [fst].
+  rewrite (compute_vals_label st f mode vals Hc Hk Hl).
+  replace (compute_vals (drop_cache st) f mode vals)
+    with (match mode with
+          | MCycle => label_stat f (s_cv st) vals
+          | MAug => aug_label_stat f (s_trough st) (s_cv st) (s_ph st) vals
+          end) by (destruct mode; reflexivity).
+  reflexivity.
+Qed.
+
+Lemma timings_drop : forall st, cok st -> timings (drop_cache st) = drop_cache (timings st).
+Proof.
+  intros st Hk. unfold timings.
+  change (nsamples (drop_cache st)) with (nsamples st). change (s_cv (drop_cache st)) with (s_cv st).
+  pose proof (compute_metric_frame st "start_sample" f_first MCycle (arange (nsamples st))) as F1.
+  rewrite (compute_metric_drop st) by (try exact Hk; apply arange_length).
+  set (st1 := compute_metric st "start_sample" f_first MCycle (arange (nsamples st))) in *.
+  pose proof (compute_metric_frame st1 "stop_sample" f_last MCycle (arange (nsamples st))) as F2.
+  pose proof (frame_cok _ _ F1 Hk) as K1.
+  rewrite (compute_metric_drop st1) by (try exact K1; rewrite arange_length; symmetry; apply frame_nsamples; exact F1).
+  set (st2 := compute_metric st1 "stop_sample" f_last MCycle (arange (nsamples st))) in *.
+  pose proof (frame_cok _ _ F2 K1) as K2.
+  rewrite (compute_metric_drop st2); [reflexivity|exact K2|].
+  rewrite (frame_nsamples _ _ F2), (frame_nsamples _ _ F1). reflexivity.
+Qed.
+
+Lemma pick_drop : forall st cs, pick (drop_cache st) cs = (drop_cache (fst (pick st cs)), snd (pick st cs)).
+Proof.
+  intros st cs. unfold pick. change (get_matching (drop_cache st) cs) with (get_matching st cs).
+  destruct (get_matching st cs) as [valids|e]; [|reflexivity].
+  destruct (get_chain_vector (get_subset_vector valids)) as [|c0 ct]; [reflexivity|].
+  change (set_subset (drop_cache st) cs valids (get_subset_vector valids) (c0 :: ct))
+    with (drop_cache (set_subset st cs valids (get_subset_vector valids) (c0 :: ct))).
+  rewrite add_metric_drop. reflexivity.
+Qed.
+
+Lemma chain_t_loop_drop : forall kinds st chv sv,
+  chain_t_loop (drop_cache st) chv sv kinds = option_map drop_cache (chain_t_loop st chv sv kinds).
+Proof.
+  induction kinds as [|k t IH]; intros st chv sv; cbn [chain_t_loop]; [reflexivity|].
+  change (chain_t_vals (drop_cache st) chv sv k) with (chain_t_vals st chv sv k).
+  destruct (chain_t_vals st chv sv k) as [vals|]; [|reflexivity].
+  rewrite add_metric_drop. cbn [fst]. apply IH.
+Qed.
+
+Lemma chain_timings_drop : forall st,
+  chain_timings (drop_cache st) = (drop_cache (fst (chain_timings st)), snd (chain_timings st)).
+Proof.
+  intros st. unfold chain_timings.
+  change (s_conds (drop_cache st)) with (s_conds st). change (s_subset (drop_cache st)) with (s_subset st).
+  change (s_chain (drop_cache st)) with (s_chain st).
+  destruct (s_conds st); [|reflexivity]. destruct (s_subset st) as [sv|]; [|reflexivity].
+  destruct (s_chain st) as [chv|]; [|reflexivity].
+  rewrite chain_t_loop_drop. destruct (chain_t_loop st chv sv [0; 1; 2; 3; 4]%nat); reflexivity.
+Qed.
+
+Lemma step_drop : forall st o, cok st -> wf_op (nsamples st) o ->
+  step (drop_cache st) o = (drop_cache (fst (step st o)), snd (step st o)).
+Proof.
+  intros st o Hk Hwf. destruct o as [n f mode vals|n vals| |cs| |w]; cbn [step].
+  - rewrite compute_metric_drop by assumption. reflexivity.
+  - rewrite add_metric_drop. destruct (add_metric st n PAdded vals) as [st' b]. reflexivity.
+  - rewrite timings_drop by assumption. reflexivity.
+  - apply pick_drop.
+  - apply chain_timings_drop.
+  - reflexivity.
+Qed.
+
+Lemma run_drop : forall ops st, cok st -> Forall (wf_op (nsamples st)) ops ->
+  run (drop_cache st) ops = drop_cache (run st ops) /\ outs (drop_cache st) ops = outs st ops.
+Proof.
+  induction ops as [|o t IH]; intros st Hk Hwf; [split; reflexivity|].
+  inversion Hwf as [|? ? Ho Ht]; subst.
+  pose proof (step_drop st o Hk Ho) as E.
+  assert (K' : cok (fst (step st o))) by (eapply frame_cok; [apply step_frame|exact Hk]).
+  assert (W' : Forall (wf_op (nsamples (fst (step st o)))) t)
+    by (rewrite (frame_nsamples _ _ (step_frame st o)); exact Ht).
+  destruct (IH _ K' W') as [I1 I2]. split.
+  - unfold run in *. cbn [fold_left]. rewrite E. cbn [fst]. exact I1.
+  - cbn [outs]. rewrite E. destruct (step st o) as [st' r]. cbn [fst snd] in *. rewrite I2. reflexivity.
+Qed.
+
+Lemma init_drop : forall P trough ph,
+  init P trough false ph = option_map drop_cache (init P trough true ph).
+Proof.
+  intros P trough ph. unfold init. destruct (get_cycle_vector P false None ph) as [cv|] eqn:E; [|reflexivity].
+  cbn [option_map]. f_equal.
+  change (empty_state P trough false ph cv) with (drop_cache (empty_state P trough true ph cv)).
+  apply compute_metric_drop.
+  - destruct (inv_empty P trough true ph cv E) as [Hc [Hk _]]. split; assumption.
+  - unfold nsamples, empty_state. proj. symmetry. eapply container_length; eauto.
+Qed.
+
+Lemma cache_irrelevant : forall P trough ph ops s_on s_off,
+  init P trough true ph = Some s_on -> init P trough false ph = Some s_off ->
+  Forall (wf_op (length ph)) ops ->
+  observe (run s_on ops) = observe (run s_off ops) /\ outs s_on ops = outs s_off ops.
+Proof.
+  intros P trough ph ops s_on s_off Hon Hoff Hwf.
+  rewrite init_drop, Hon in Hoff. cbn [option_map] in Hoff. injection Hoff as <-.
+  destruct (inv_init _ _ _ _ _ Hon) as [Hc [Hk _]].
+  rewrite <- (init_nsamples _ _ _ _ _ Hon) in Hwf.
+  destruct (run_drop ops s_on (conj Hc Hk) Hwf) as [R1 R2]. rewrite R1, R2. split; reflexivity.
+Qed.
+
+(* ====================================================================================== *)
+(* G. what the invariant says about selections, chains and exports                          *)
+(* ====================================================================================== *)
+
+
+Lemma resolve_sat : forall ms cs r k, resolve ms cs = Ok r ->
+  (sat_all r k = true <-> forall s, In s cs -> cond_holds ms k s).
+Proof.
+  intros ms. induction cs as [|s t IH]; intros r k H; cbn [resolve] in H.
+  - injection H as <-. split; [intros _ s []|reflexivity].
+  - destruct (parse_cond s) as [c|] eqn:Ep; [|discriminate].
+    destruct (find_metric (c_name c) ms) as [m|] eqn:Ef; [|discriminate].
+    destruct (resolve ms t) as [r'|e] eqn:Er; [|discriminate]. injection H as <-.
+    unfold sat_all. cbn [forallb fst snd]. fold (sat_all r' k). rewrite andb_true_iff, (IH r' k eq_refl).
+    split.
+    + intros [H1 H2] s' [<-|Hin]; [|apply H2; exact Hin].
+      exists c, m. repeat split; assumption.
+    + intros Hall. split.
+      * destruct (Hall s (or_introl eq_refl)) as [c' [m' [E1 [E2 E3]]]].
+        rewrite Ep in E1. injection E1 as <-. rewrite Ef in E2. injection E2 as <-. exact E3.
+      * intros s' Hin. apply Hall. right; exact Hin.
+Qed.
+
+Lemma get_matching_spec : forall st cs valids k, get_matching st cs = Ok valids ->
+  (k < length valids)%nat ->
+  (nth k valids false = true <-> forall s, In s cs -> cond_holds (s_metrics st) k s).
+Proof.
+  intros st cs valids k H Hk. rewrite get_matching_gm in H. unfold gm in H.
+  destruct (find_metric "is_good" (s_metrics st)) as [g|]; [|discriminate].
+  destruct (resolve (s_metrics st) cs) as [r|e] eqn:Er; [|discriminate]. injection H as <-.
+  rewrite map_length, seq_length in Hk.
+  rewrite (nth_indep _ false (sat_all r 0%nat)) by (rewrite map_length, seq_length; exact Hk).
+  rewrite map_nth, seq_nth by exact Hk. cbn [Nat.add]. apply resolve_sat. exact Er.
+Qed.
+
+(* a successful selection stores exactly what it computed; a failing one stores nothing *)
+Lemma pick_spec : forall st cs st', pick st cs = (st', OOk) ->
+  exists valids, get_matching st cs = Ok valids /\
+    s_conds st' = Some cs /\ s_valids st' = valids /\
+    s_subset st' = Some (get_subset_vector valids) /\
+    s_chain st' = Some (get_chain_vector (get_subset_vector valids)).
+Proof.
+  intros st cs st' H. unfold pick in H. destruct (get_matching st cs) as [valids|e]; [|discriminate].
+  destruct (get_chain_vector (get_subset_vector valids)) as [|c0 ct] eqn:Ec; [discriminate|].
+  injection H as <-. exists valids. split; [reflexivity|].
+  destruct (add_metric_sel (set_subset st cs valids (get_subset_vector valids) (c0 :: ct)) "chain_ind" PChainInd
+              (chain_ind_vals (c0 :: ct) (get_subset_vector valids))) as [A1 [A2 [A3 [A4 _]]]].
+  rewrite A1, A2, A3, A4. proj. rewrite Ec. repeat split; reflexivity.
+Qed.
+
+Lemma pick_fail_unchanged : forall st cs, snd (pick st cs) <> OOk -> fst (pick st cs) = st.
+Proof.
+  intros st cs H. unfold pick in *. destruct (get_matching st cs) as [valids|e]; [|reflexivity].
+  destruct (get_chain_vector (get_subset_vector valids)); [reflexivity|]. cbn [snd] in H. congruence.
+Qed.
+
+(* the stored selection: numbered in order, chains = maximal runs, and - as long as no metric the
+   conditions name has been rewritten - exactly the cycles satisfying all stored conditions *)
+Lemma selection_spec : forall st cs sv chv,
+  Inv st -> s_conds st = Some cs -> s_subset st = Some sv -> s_chain st = Some chv ->
+  length sv = ncyc st /\
+  (forall k, nth_error sv k =
+     option_map (fun b : bool => if b then Z.of_nat (count_true (firstn k (s_valids st))) else -1)
+                (nth_error (s_valids st) k)) /\
+  (length chv = length (selected_cycles sv) /\
+   (forall c, nth_error chv 0 = Some c -> c = 0) /\
+   (forall j a b ca cb,
+      nth_error (selected_cycles sv) j = Some a -> nth_error (selected_cycles sv) (S j) = Some b ->
+      nth_error chv j = Some ca -> nth_error chv (S j) = Some cb ->
+      (b = S a -> cb = ca) /\ (b <> S a -> cb = ca + 1))) /\
+  (fresh_conds st cs ->
+   get_matching st cs = Ok (s_valids st) /\
+   forall k, (k < ncyc st)%nat ->
+     (nth k (s_valids st) false = true <-> forall s, In s cs -> cond_holds (s_metrics st) k s)).
+Proof.
+  intros st cs sv chv HI Hcs Hsv Hchv. destruct HI as [_ [_ [_ [Hs _]]]].
+  unfold sel_ok in Hs. rewrite Hcs, Hsv, Hchv in Hs. destruct Hs as [H1 [H2 [H3 [H4 H5]]]].
+  subst sv chv. split; [rewrite sv_length; exact H1|]. split; [apply subset_vector_spec|].
+  split; [apply chain_vector_spec|]. intros Hf. specialize (H5 Hf). split; [exact H5|].
+  intros k Hk. apply (get_matching_spec st cs _ k H5). lia.
+Qed.
+
+(* every stored metric has exactly one entry per cycle *)
+Lemma metric_lengths : forall st m, Inv st -> In m (s_metrics st) -> length (m_vals m) = ncyc st.
+Proof.
+  intros st m [_ [_ [Hm _]]] Hin. rewrite Forall_forall in Hm. exact (proj1 (Hm m Hin)).
+Qed.
+
+(* a computed metric equals the function applied to that cycle's samples *)
+Lemma computed_metric_spec : forall st m f mode vals, Inv st -> In m (s_metrics st) ->
+  m_prov m = PComputed f mode vals ->
+  forall k, (k < ncyc st)%nat ->
+    nth_error (m_vals m) k =
+      Some (match mode with
+            | MCycle => Some (f (samples_with_label (s_cv st) vals (Z.of_nat k)))
+            | MAug => option_map f (aug_samples (s_P st) (s_trough st) (s_ph st) vals k)
+            end).
+Proof.
+  intros st m f mode vals [_ [_ [Hm _]]] Hin Hp k Hk. rewrite Forall_forall in Hm.
+  destruct (Hm m Hin) as [_ H]. rewrite Hp in H. destruct mode; destruct H as [_ H]; apply H; exact Hk.
+Qed.
+
+(* chain metrics written since the last selection describe the current chains *)
+Lemma chain_metric_spec : forall st m sv chv, Inv st -> In m (s_metrics st) ->
+  s_subset st = Some sv -> s_chain st = Some chv ->
+  (s_pick_clock st < m_stamp m)%nat ->
+  chain_metric_ok st sv chv (m_prov m) (m_vals m).
+Proof.
+  intros st m sv chv [_ [_ [Hm _]]] Hin Hsv Hchv Hlt. rewrite Forall_forall in Hm.
+  destruct (Hm m Hin) as [_ H]. rewrite Hsv, Hchv in H.
+  destruct (m_prov m) as [f [|] v| | |kind]; cbn [chain_metric_ok]; try exact I; apply H; exact Hlt.
+Qed.
+
+(* compute_chain_timings never fails half way *)
+Lemma chain_timings_total : forall st, Inv st -> snd (chain_timings st) <> ORaised 9.
+Proof.
+  intros st HI. unfold chain_timings.
+  destruct (s_conds st) eqn:Ecs; [|discriminate]. destruct (s_subset st) as [sv|] eqn:Esv; [|discriminate].
+  destruct (s_chain st) as [chv|] eqn:Echv; [|discriminate].
+  assert (G : forall kinds st0, Inv st0 -> s_subset st0 = Some sv -> s_chain st0 = Some chv ->
+              chain_t_loop st0 chv sv kinds <> None).
+  { induction kinds as [|k t IH]; intros st0 HI0 Hsv0 Hchv0; cbn [chain_t_loop]; [discriminate|].
+    destruct (chain_t_vals st0 chv sv k) as [vals|] eqn:Ev.
+    - destruct (add_metric_sel st0 (chain_t_name k) (PChainT k) vals) as [A1 [A2 _]].
+      apply IH; [|rewrite A1; exact Hsv0|rewrite A2; exact Hchv0].
+      eapply (inv_chain_loop [k] st0 sv chv); eauto. cbn [chain_t_loop]. rewrite Ev. reflexivity.
+    - exfalso. destruct HI0 as [Hc [_ [_ [Hs _]]]]. unfold sel_ok in Hs. rewrite Hsv0, Hchv0 in Hs.
+      destruct (s_conds st0); [|destruct Hs]. destruct Hs as [H1 [H2 [H3 _]]]. subst sv chv.
+      exact (chain_t_vals_some st0 _ k Hc H1 Ev). }
+  specialize (G [0; 1; 2; 3; 4]%nat st HI Esv Echv).
+  destruct (chain_t_loop st chv sv [0; 1; 2; 3; 4]%nat); [discriminate|congruence].
+Qed.
+
+(* exports *)
+Lemma export_all_spec : forall st,
+  export st ExAll = OTable false (map m_name (s_metrics st)) (map (row (s_metrics st)) (seq 0 (ncyc st))).
+Proof. reflexivity. Qed.
+
+Lemma export_conds_spec : forall st cs valids, get_matching st cs = Ok valids ->
+  export st (ExConds cs) =
+    OTable true (map m_name (s_metrics st))
+           (map (row (s_metrics st)) (filter (fun k => nth k valids false) (seq 0 (ncyc st)))).
+Proof. intros st cs valids H. unfold export. rewrite H. reflexivity. Qed.
+
+(* the subset export lists exactly the cycles the subset vector selects *)
+Lemma export_subset_agrees : forall st cs sv, Inv st ->
+  s_conds st = Some cs -> s_subset st = Some sv -> fresh_conds st cs ->
+  export st ExSubset =
+    OTable true (map m_name (s_metrics st))
+           (map (row (s_metrics st)) (filter (fun k => 0 <=? nth k sv (-1)) (seq 0 (ncyc st)))).
+Proof.
+  intros st cs sv HI Hcs Hsv Hf. pose proof HI as [_ [_ [_ [Hs _]]]].
+  unfold sel_ok in Hs. rewrite Hcs, Hsv in Hs. destruct (s_chain st) as [chv|]; [|destruct Hs].
+  destruct Hs as [H1 [H2 [_ [_ H5]]]]. specialize (H5 Hf).
+  unfold export. rewrite Hcs, H5. f_equal. f_equal. apply filter_ext_in. intros k Hk. apply in_seq in Hk.
+  assert (Hkv : (k < length (s_valids st))%nat) by lia.
+  assert (E : nth_error sv k =
+              Some (if nth k (s_valids st) false then Z.of_nat (count_true (firstn k (s_valids st))) else -1)).
+  { subst sv. rewrite subset_vector_spec, (nth_error_nth' _ false Hkv). reflexivity. }
+  rewrite (nth_error_nth _ _ (-1) E). destruct (nth k (s_valids st) false).
+  - symmetry. apply Z.leb_le. lia.
+  - reflexivity.
+Qed.
+
+(* ====================================================================================== *)
+(* H. the code before the repairs; non-vacuity                                              *)
+(* ====================================================================================== *)
+
+(* augmented mode, first cycle: cache on says "missing", cache off f(whole recording) *)
+Lemma cache_irrelevant_v0_refuted : exists trough cv ph vals,
+  length vals = length cv /\
+  compute_vals_v0 true trough cv ph zsum MAug vals <> compute_vals_v0 false trough cv ph zsum MAug vals /\
+  nth_error (compute_vals_v0 true trough cv ph zsum MAug vals) 0 = Some None /\
+  nth_error (compute_vals_v0 false trough cv ph zsum MAug vals) 0 = Some (Some (zsum vals)).
+Proof.
+  exists 37, [0; 0; 0; 1; 1; 1; 1; 1; 2; 2], [24; 36; 50; 2; 12; 24; 36; 50; 2; 12], [1; 2; 3; 4; 5; 6; 7; 8; 9; 10].
+  split; [reflexivity|]. split; [intro H; vm_compute in H; discriminate|]. split; vm_compute; reflexivity.
+Qed.
+
+(* augmented mode, non-monotonic phase: the two definitions of the trough differ *)
+Lemma aug_definitions_v0_refuted : exists trough cv ph vals,
+  length vals = length cv /\
+  nth_error (compute_vals_v0 true trough cv ph zsum MAug vals) 1 <>
+  nth_error (compute_vals_v0 false trough cv ph zsum MAug vals) 1.
+Proof.
+  exists 37, [0; 0; 0; 0; 0; 0; 0; 1; 1; 1], [2; 12; 24; 40; 30; 45; 50; 2; 12; 24], [0; 1; 2; 3; 4; 5; 6; 7; 8; 9].
+  split; [reflexivity|]. intro H; vm_compute in H; discriminate.
+Qed.
+
+(* a recording without a wrap has no cycle, but the old cache held one slice *)
+Lemma slice_cache_v0_no_cycles_refuted : exists cv,
+  ncycles cv = 0%nat /\ length (make_slice_cache_v0 cv) = 1%nat /\ make_slice_cache cv = [].
+Proof. exists [-1; -1; -1; -1]. vm_compute. repeat split. Qed.
+
+(* the old pick stored the conditions before anything that can fail *)
+Lemma pick_v0_refuted : exists P trough ph st,
+  init P trough true ph = Some st /\
+  ~ sel_ok (fst (pick_v0 st ["nosuch>1"%string])) /\
+  fst (pick st ["nosuch>1"%string]) = st.
+Proof.
+  exists (mk_params [37; 2; 49; 50]), 37, [24; 36; 50; 2; 12; 24; 36; 50; 2; 12].
+  destruct (init (mk_params [37; 2; 49; 50]) 37 true [24; 36; 50; 2; 12; 24; 36; 50; 2; 12]) as [st|] eqn:E;
+    [|exfalso; exact (init_total _ _ _ _ E)].
+  exists st. split; [reflexivity|]. vm_compute in E. injection E as <-.
+  split; [intro H; vm_compute in H; exact H|]. vm_compute. reflexivity.
+Qed.
+
+(* after a selection with no match the old pick left subset/chains replaced but chain_ind stale *)
+Lemma pick_v0_stale_chain_ind : exists P trough ph st ops,
+  init P trough true ph = Some st /\
+  let st1 := run st ops in
+  let st2 := fst (pick_v0 st1 ["duration>100"%string]) in
+  snd (pick_v0 st1 ["duration>100"%string]) = ORaised 2 /\
+  s_subset st2 = Some [-1; -1; -1; -1] /\ s_chain st2 = Some [] /\
+  option_map m_vals (find_metric "chain_ind" (s_metrics st2)) = Some [Some (-1); Some 0; Some 0; Some (-1)] /\
+  fst (pick st1 ["duration>100"%string]) = st1.
+Proof.
+  exists (mk_params [37; 2; 49; 50]), 37, [24; 36; 50; 2; 12; 24; 36; 50; 2; 12; 24; 36; 50; 2; 12; 24].
+  destruct (init (mk_params [37; 2; 49; 50]) 37 true [24; 36; 50; 2; 12; 24; 36; 50; 2; 12; 24; 36; 50; 2; 12; 24])
+    as [st|] eqn:E; [|exfalso; exact (init_total _ _ _ _ E)].
+  exists st, [Timings; Pick ["duration>3"%string]]. split; [reflexivity|].
+  vm_compute in E. injection E as <-. vm_compute. repeat split.
+Qed.
+
+Definition fresh_b (st : cstate) (cs : list string) : bool :=
+  forallb (fun s => match parse_cond s with
+                    | None => false
+                    | Some c => match find_metric (c_name c) (s_metrics st) with
+                                | None => false
+                                | Some m => (m_stamp m <? s_pick_clock st)%nat
+                                end
+                    end) cs.
+
+Lemma fresh_b_ok : forall st cs, fresh_b st cs = true -> fresh_conds st cs.
+Proof.
+  intros st cs. unfold fresh_b, fresh_conds. induction cs as [|s t IH]; intros H; [constructor|].
+  cbn [forallb] in H. apply andb_true_iff in H. destruct H as [H1 H2]. constructor; [|apply IH; exact H2].
+  destruct (parse_cond s) as [c|]; [|discriminate].
+  destruct (find_metric (c_name c) (s_metrics st)) as [m|]; [|discriminate].
+  apply Nat.ltb_lt. exact H1.
+Qed.
+
+(* non-vacuity: a container with four cycles, timings, an augmented metric, a selection with a negative
+   exponent literal, chain timings and a subset export; every hypothesis of the theorems holds *)
+Lemma c15_premises_hold : exists st,
+  let ph := [24; 36; 50; 2; 12; 24; 36; 50; 2; 12; 24; 36; 50; 2; 12; 24] in
+  let ops := [Timings; ComputeMetric "m" zsum MAug (arange 16);
+              Pick ["duration>=45e-1"%string; "is_good!=0"%string]; ChainTimings; Export ExSubset] in
+  init (mk_params [37; 2; 49; 50]) 37 true ph = Some st /\
+  Forall (wf_op (length ph)) ops /\
+  s_cv st = [0; 0; 0; 1; 1; 1; 1; 1; 2; 2; 2; 2; 2; 3; 3; 3] /\
+  s_subset (run st ops) = Some [-1; 0; 1; -1] /\ s_chain (run st ops) = Some [0; 0] /\
+  fresh_conds (run st ops) ["duration>=45e-1"%string; "is_good!=0"%string] /\
+  option_map m_vals (find_metric "m" (s_metrics (run st ops))) = Some [None; Some 27; Some 57; Some 54] /\
+  option_map m_vals (find_metric "chain_len_samples" (s_metrics (run st ops)))
+    = Some [Some (-1); Some 10; Some 10; Some (-1)] /\
+  nth 4 (outs st ops) OOk =
+    OTable true (map m_name (s_metrics (run st ops)))
+           (map (row (s_metrics (run st ops))) [1; 2]%nat).
+Proof.
+  destruct (init (mk_params [37; 2; 49; 50]) 37 true [24; 36; 50; 2; 12; 24; 36; 50; 2; 12; 24; 36; 50; 2; 12; 24])
+    as [st|] eqn:E; [|exfalso; exact (init_total _ _ _ _ E)].
+  exists st. cbv zeta. split; [exact E|].
+  split; [repeat constructor|].
+  vm_compute in E. injection E as <-.
+  split; [reflexivity|]. split; [vm_compute; reflexivity|]. split; [vm_compute; reflexivity|].
+  split; [apply fresh_b_ok; vm_compute; reflexivity|].
+  split; [vm_compute; reflexivity|]. split; [vm_compute; reflexivity|]. vm_compute. reflexivity.
+Qed.
